@@ -132,6 +132,8 @@ func runC19(c *fw.Ctx) {
 			c19Rhp2Sweep(c, g, c11GetConsts(c), model)
 		case strings.HasPrefix(v.Replay.Kind, "rhp2"):
 			c19Rhp2(c, g)
+		case v.Replay.Kind == "rhp2-multi":
+			c19Rhp2Sequences(c, g)
 		case strings.HasPrefix(v.Replay.Kind, "rhp3"):
 			c19Rhp3(c, g, c11GetConsts(c))
 		case strings.HasPrefix(v.Replay.Kind, "gateway"):
@@ -149,6 +151,8 @@ func runC19(c *fw.Ctx) {
 	c19Gateway(c, g, model)
 	c19Rhp2(c, g)
 	c19Rhp2Sweep(c, g, consts, model)
+	c19Rhp2Sequences(c, g)
+	c19Rhp4Sequences(c, g)
 	c19RawResponse(c)
 	c19Rhp3(c, g, consts)
 	c11Compare(c, model)
@@ -1013,4 +1017,5 @@ func c19Rhp3(c *fw.Ctx, g *c11Gen, k c11Consts) {
 		}
 	}
 	c19Rhp3Sweep(c, g, k, rt, ht)
+	c19Rhp3Sequences(c, g, k, rt, ht)
 }
